@@ -182,6 +182,15 @@ def phase (arange : Nat → List κ) (d : Data κ α) (dim : String) (cis : Nat 
     (d.ext dim) none
   .ok (r.addHist "phase_correction" ["p0", "p1", "pivot"])
 
+/-- autophase(data, dim) without a reference slice: the optimiser's angles are RECORDED per trace (history entry
+    `autophase`, parameter `phasetuples`) and applied through `phase`, trace by trace — so the result is the input
+    multiplied by the factor table of the recorded angles (`cis j k`, computed from the recorded tuples exactly as `phase`
+    would) and nothing else -/
+def autophase (arange : Nat → List κ) (d : Data κ α) (dim : String) (cis : Nat → Nat → α) : Except Err (Data κ α) := do
+  let r ← d.bracket arange dim (fun j c => (List.zipWith (fun x k => A.mul x (cis j k)) c (List.range c.length)))
+    (d.ext dim) none
+  .ok (r.addHist "autophase" ["deriv", "dim", "gamma", "phasetuples", "reference_slice"])
+
 /-- phase_cycle(data, dim, receiver_phase): slice k gets exp(−iπ/2·r[k mod len]) = (−i)^r -/
 def phaseCycle (d : Data κ α) (dim : String) (rp : List Nat) (negIpow : Nat → α) : Except Err (Data κ α) :=
   if dim ∉ d.dims then .error .value
